@@ -915,6 +915,12 @@ class FunctionBuilder:
             raise ExistingArgument(f'arg {arg_name!r} already in func {self.name} arg list')
         if arg_name in self.kwonlyargs:
             raise ExistingArgument(f'arg {arg_name!r} already in func {self.name} kwonly arg list')
+        if not kwonly and default is NO_DEFAULT and self.defaults:
+            # A required argument cannot come after positional ones with
+            # defaults: appended there it would take over the last
+            # default and shift all the others by one argument. The
+            # closest valid signature has it as a keyword-only argument.
+            kwonly = True
         if not kwonly:
             self.args.append(arg_name)
             if default is not NO_DEFAULT:
